@@ -949,6 +949,10 @@ func (e *Engine) intrinsic(cc *CallCtx, name string) bool {
 		return e.visibleOp(c, cc.rest, func(int) *Term { return TS.True }, func(int) bool { cc.finish(nil); return true })
 	case "verifObserve":
 		cc.finish(nil)
+	case "verifBoundTryFailures":
+		n := a[0].(*Term)
+		e.maxTryFails = int(n.val)
+		cc.finish(nil)
 	case "verifBoundSelectDefaults":
 		n := a[0].(*Term)
 		e.maxDefaults = int(n.val)
